@@ -636,4 +636,201 @@ theorem rayleigh_max_eigen (A : Sym3) (v : P3) (lam : Rat) (hq : A.quad v = lam 
   simp only at hx hy hz
   exact ⟨by linarith, by linarith, by linarith⟩
 
+/-! ## bounding boxes -/
+
+theorem minOf_le_init (l : List Rat) (d : Rat) : minOf l d ≤ d := by
+  induction l generalizing d with
+  | nil => exact le_refl d
+  | cons a l ih => unfold minOf at *; rw [List.foldl_cons]; exact le_trans (ih (min d a)) (min_le_left d a)
+
+theorem minOf_le_mem (l : List Rat) (d : Rat) : ∀ x ∈ l, minOf l d ≤ x := by
+  induction l generalizing d with
+  | nil => intro x hx; exact absurd hx List.not_mem_nil
+  | cons a l ih =>
+    intro x hx
+    unfold minOf at *
+    rw [List.foldl_cons]
+    rcases List.mem_cons.mp hx with rfl | hx
+    · exact le_trans (minOf_le_init l (min d x)) (min_le_right d x)
+    · exact ih (min d a) x hx
+
+theorem minOf_mem (l : List Rat) (d : Rat) : minOf l d = d ∨ minOf l d ∈ l := by
+  induction l generalizing d with
+  | nil => left; rfl
+  | cons a l ih =>
+    unfold minOf at *
+    rw [List.foldl_cons]
+    rcases ih (min d a) with h | h
+    · rcases min_choice d a with h' | h'
+      · left; rw [h, h']
+      · right; rw [h, h']; exact List.mem_cons_self
+    · right; exact List.mem_cons_of_mem _ h
+
+theorem le_maxOf_init (l : List Rat) (d : Rat) : d ≤ maxOf l d := by
+  induction l generalizing d with
+  | nil => exact le_refl d
+  | cons a l ih => unfold maxOf at *; rw [List.foldl_cons]; exact le_trans (le_max_left d a) (ih (max d a))
+
+theorem le_maxOf_mem (l : List Rat) (d : Rat) : ∀ x ∈ l, x ≤ maxOf l d := by
+  induction l generalizing d with
+  | nil => intro x hx; exact absurd hx List.not_mem_nil
+  | cons a l ih =>
+    intro x hx
+    unfold maxOf at *
+    rw [List.foldl_cons]
+    rcases List.mem_cons.mp hx with rfl | hx
+    · exact le_trans (le_max_right d x) (le_maxOf_init l (max d x))
+    · exact ih (max d a) x hx
+
+theorem maxOf_mem (l : List Rat) (d : Rat) : maxOf l d = d ∨ maxOf l d ∈ l := by
+  induction l generalizing d with
+  | nil => left; rfl
+  | cons a l ih =>
+    unfold maxOf at *
+    rw [List.foldl_cons]
+    rcases ih (max d a) with h | h
+    · rcases max_choice d a with h' | h'
+      · left; rw [h, h']
+      · right; rw [h, h']; exact List.mem_cons_self
+    · right; exact List.mem_cons_of_mem _ h
+
+/-- The box returned by `bboxOf` is the tight axis-aligned box of the points: it contains every point and each face is
+attained by some point. -/
+theorem bboxOf_spec (V : List P3) (lo hi : P3) (h : bboxOf V = some (lo, hi)) :
+    (∀ q ∈ V, (lo.x ≤ q.x ∧ q.x ≤ hi.x) ∧ (lo.y ≤ q.y ∧ q.y ≤ hi.y) ∧ (lo.z ≤ q.z ∧ q.z ≤ hi.z)) ∧
+    (∃ q ∈ V, q.x = lo.x) ∧ (∃ q ∈ V, q.x = hi.x) ∧ (∃ q ∈ V, q.y = lo.y) ∧ (∃ q ∈ V, q.y = hi.y) ∧
+    (∃ q ∈ V, q.z = lo.z) ∧ (∃ q ∈ V, q.z = hi.z) := by
+  cases V with
+  | nil => simp [bboxOf] at h
+  | cons p l =>
+    simp only [bboxOf, Option.some.injEq, Prod.mk.injEq] at h
+    obtain ⟨rfl, rfl⟩ := h
+    have mem_of : ∀ (f : P3 → Rat) (m : Rat), (m = f p ∨ m ∈ l.map f) → ∃ q ∈ p :: l, f q = m := by
+      intro f m hm
+      rcases hm with rfl | hm
+      · exact ⟨p, List.mem_cons_self, rfl⟩
+      · obtain ⟨q, hq, rfl⟩ := List.mem_map.mp hm
+        exact ⟨q, List.mem_cons_of_mem _ hq, rfl⟩
+    refine ⟨?_, mem_of (·.x) _ (minOf_mem _ _), mem_of (·.x) _ (maxOf_mem _ _), mem_of (·.y) _ (minOf_mem _ _),
+      mem_of (·.y) _ (maxOf_mem _ _), mem_of (·.z) _ (minOf_mem _ _), mem_of (·.z) _ (maxOf_mem _ _)⟩
+    intro q hq
+    rcases List.mem_cons.mp hq with rfl | hq
+    · exact ⟨⟨minOf_le_init _ _, le_maxOf_init _ _⟩, ⟨minOf_le_init _ _, le_maxOf_init _ _⟩, ⟨minOf_le_init _ _, le_maxOf_init _ _⟩⟩
+    · exact ⟨⟨minOf_le_mem _ _ _ (List.mem_map.mpr ⟨q, hq, rfl⟩), le_maxOf_mem _ _ _ (List.mem_map.mpr ⟨q, hq, rfl⟩)⟩,
+             ⟨minOf_le_mem _ _ _ (List.mem_map.mpr ⟨q, hq, rfl⟩), le_maxOf_mem _ _ _ (List.mem_map.mpr ⟨q, hq, rfl⟩)⟩,
+             ⟨minOf_le_mem _ _ _ (List.mem_map.mpr ⟨q, hq, rfl⟩), le_maxOf_mem _ _ _ (List.mem_map.mpr ⟨q, hq, rfl⟩)⟩⟩
+
+theorem inBoxB_iff (lo hi : P3) (tol : Rat) (p : P3) : inBoxB lo hi tol p = true ↔
+    (lo.x - tol ≤ p.x ∧ p.x ≤ hi.x + tol) ∧ (lo.y - tol ≤ p.y ∧ p.y ≤ hi.y + tol) ∧ (lo.z - tol ≤ p.z ∧ p.z ≤ hi.z + tol) := by
+  unfold inBoxB
+  simp only [Bool.and_eq_true, decide_eq_true_eq]
+  constructor
+  · rintro ⟨⟨⟨⟨⟨a, b⟩, c⟩, d⟩, e⟩, f⟩; exact ⟨⟨a, b⟩, ⟨c, d⟩, ⟨e, f⟩⟩
+  · rintro ⟨⟨a, b⟩, ⟨c, d⟩, ⟨e, f⟩⟩; exact ⟨⟨⟨⟨⟨a, b⟩, c⟩, d⟩, e⟩, f⟩
+
+/-- One axis of "a vertex that hugs an in-grid voxel lies within the grid's extent". -/
+theorem hug_extent1 (off un tol q : Rat) (v sh : Int) (hun : 0 < un) (h0 : 0 ≤ v) (h1 : v < sh)
+    (h : absLe (q - (off + (v : Rat) * un)) ((1 / 2 + tol) * un) = true) :
+    off - (1 / 2 + tol) * un ≤ q ∧ q ≤ off + ((sh : Rat) - 1) * un + (1 / 2 + tol) * un := by
+  obtain ⟨ha, hb⟩ := (absLe_iff _ _).mp h
+  have v0 : (0 : Rat) ≤ (v : Rat) := by exact_mod_cast h0
+  have v1 : (v : Rat) ≤ (sh : Rat) - 1 := by
+    have : v ≤ sh - 1 := by omega
+    exact_mod_cast this
+  have m0 : 0 ≤ (v : Rat) * un := mul_nonneg v0 (le_of_lt hun)
+  have m1 : (v : Rat) * un ≤ ((sh : Rat) - 1) * un := mul_le_mul_of_nonneg_right v1 (le_of_lt hun)
+  constructor <;> linarith
+
+/-! ## invariances of the scatter matrix: neighbour order, translation -/
+
+theorem perm_sum {l l' : List Rat} (h : l.Perm l') : l.sum = l'.sum := by
+  induction h with
+  | nil => rfl
+  | cons a _ ih => simp only [List.sum_cons, ih]
+  | swap a b l => simp only [List.sum_cons]; ring
+  | trans _ _ ih1 ih2 => exact ih1.trans ih2
+
+theorem centre_perm {nb nb' : List P3} (h : nb.Perm nb') : centre nb = centre nb' := by
+  unfold centre
+  simp only [h.length_eq, perm_sum (h.map (·.x)), perm_sum (h.map (·.y)), perm_sum (h.map (·.z))]
+
+theorem sym3_add_comm (A B : Sym3) : A.add B = B.add A := by
+  unfold Sym3.add; congr 1 <;> ring
+
+theorem sym3_add_assoc (A B C : Sym3) : (A.add B).add C = A.add (B.add C) := by
+  unfold Sym3.add; congr 1 <;> ring
+
+theorem inertiaMat_perm {cs cs' : List P3} (h : cs.Perm cs') : inertiaMat cs = inertiaMat cs' := by
+  unfold inertiaMat
+  induction h with
+  | nil => rfl
+  | cons a _ ih => simp only [List.foldr_cons, ih]
+  | swap a b l =>
+    simp only [List.foldr_cons]
+    rw [← sym3_add_assoc, ← sym3_add_assoc, sym3_add_comm (Sym3.outer b) (Sym3.outer a)]
+  | trans _ _ ih1 ih2 => exact ih1.trans ih2
+
+/-- The scatter matrix does not depend on the order in which the KD-tree returns the neighbours. -/
+theorem nbInertia_perm {nb nb' : List P3} (h : nb.Perm nb') : nbInertia nb = nbInertia nb' := by
+  unfold nbInertia centred
+  rw [centre_perm h]
+  exact inertiaMat_perm (h.map _)
+
+theorem sum_map_add_const (l : List P3) (f : P3 → Rat) (c : Rat) :
+    (l.map fun q => c + f q).sum = (l.length : Rat) * c + (l.map f).sum := by
+  induction l with
+  | nil => simp
+  | cons a l ih =>
+    simp only [List.map_cons, List.sum_cons, List.length_cons, ih]
+    push_cast
+    ring
+
+theorem centre_translate (t : P3) (nb : List P3) (hne : nb ≠ []) : centre (nb.map (add t)) = add t (centre nb) := by
+  have hn : (nb.length : Rat) ≠ 0 := by
+    have : 0 < nb.length := List.length_pos_iff.mpr hne
+    exact_mod_cast (Nat.pos_iff_ne_zero.mp this)
+  unfold centre add
+  simp only [List.length_map, List.map_map]
+  have hx := sum_map_add_const nb (·.x) t.x
+  have hy := sum_map_add_const nb (·.y) t.y
+  have hz := sum_map_add_const nb (·.z) t.z
+  have ex : ((fun a : P3 => a.x) ∘ fun b : P3 => (⟨t.x + b.x, t.y + b.y, t.z + b.z⟩ : P3)) = fun q => t.x + q.x := rfl
+  have ey : ((fun a : P3 => a.y) ∘ fun b : P3 => (⟨t.x + b.x, t.y + b.y, t.z + b.z⟩ : P3)) = fun q => t.y + q.y := rfl
+  have ez : ((fun a : P3 => a.z) ∘ fun b : P3 => (⟨t.x + b.x, t.y + b.y, t.z + b.z⟩ : P3)) = fun q => t.z + q.z := rfl
+  rw [ex, ey, ez, hx, hy, hz]
+  congr 1 <;> field_simp
+
+/-- The scatter matrix — hence tangent and alpha — does not depend on where the cloud sits (offsets drop out). -/
+theorem nbInertia_translate (t : P3) (nb : List P3) : nbInertia (nb.map (add t)) = nbInertia nb := by
+  by_cases hne : nb = []
+  · subst hne; rfl
+  · unfold nbInertia centred
+    rw [centre_translate t nb hne, List.map_map]
+    congr 1
+    apply List.map_congr_left
+    intro q _
+    show sub (add t q) (add t (centre nb)) = sub q (centre nb)
+    unfold sub add
+    congr 1 <;> ring
+
+/-! ## completeness of the alpha checker on exact data -/
+
+theorem alphaOKB_complete (A : Sym3) (l1 l2 l3 : Rat) (h12 : l2 ≤ l1) (h23 : l3 ≤ l2) (h3 : 0 ≤ l3)
+    (hcp : ∀ t, A.charpoly t = (t - l1) * (t - l2) * (t - l3)) (htr : A.trace ≠ 0) :
+    alphaOKB A l1 ((l1 - l2) / A.trace) 0 = true := by
+  have c0 := hcp 0
+  have c1 := hcp 1
+  have cm := hcp (-1)
+  rw [charpoly_expand, cubic_expand] at c0 c1 cm
+  have hdet : A.det = l1 * l2 * l3 := by linarith
+  have htrace : A.trace = l1 + l2 + l3 := by linarith
+  have hm2 : A.minors2 = l1 * l2 + l1 * l3 + l2 * l3 := by linarith
+  have e2 : impliedL2 A l1 ((l1 - l2) / A.trace) = l2 := by
+    unfold impliedL2; field_simp; ring
+  have e3 : impliedL3 A l1 ((l1 - l2) / A.trace) = l3 := by
+    unfold impliedL3; rw [e2, htrace]; ring
+  unfold alphaOKB
+  simp only [Bool.and_eq_true, decide_eq_true_eq, absLe_iff, e2, e3, hm2, hdet, zero_mul, add_zero, neg_zero]
+  refine ⟨⟨⟨⟨⟨?_, ?_⟩, ⟨?_, ?_⟩⟩, h12⟩, h23⟩, h3⟩ <;> linarith
+
 end Navis.Voxel
